@@ -108,6 +108,27 @@ def links_only_on_stack():
             }
 """)
 
+@mut
+def seed_c11_definite():
+    # /tmp/seed-c11/out/1: make_solution treats QuantumExceeded like NoMoreSolutions (Definite instead of Suggested)
+    rep("chalk-engine/src/slg/aggregate.rs", """                AnswerResult::NoMoreSolutions => {
+                    break Guidance::Definite(subst);
+                }
+                AnswerResult::QuantumExceeded => {
+                    break Guidance::Suggested(subst);
+                }""", """                AnswerResult::NoMoreSolutions | AnswerResult::QuantumExceeded => {
+                    break Guidance::Definite(subst);
+                }""")
+
+@mut
+def seed_c12_stash_only_unselected():
+    # /tmp/seed-c11/out/2: the strand is parked before select_subgoal only when no subgoal is selected yet
+    rep("chalk-engine/src/logic.rs", """                    self.stack.top().active_strand = Some(canonical_strand.clone());
+                    let selection""", """                    if canonical_strand.value.selected_subgoal.is_none() {
+                        self.stack.top().active_strand = Some(canonical_strand.clone());
+                    }
+                    let selection""")
+
 def main():
     name, checks = sys.argv[1], sys.argv[2:]
     subprocess.run(["git", "-C", WT, "checkout", "-q", "."], check=True)
